@@ -350,4 +350,49 @@ theorem runChain_eq_chainSpec (h : Hier) (d : Nat) (args : List Int) (s : Nat) :
       simp only [ho', Bool.not_false, if_true, ih (d + 1)]
       simp [chainSpec, ovLevels, ho']
 
+/-- the records of `k` successive `step()` calls -/
+def entriesN : Nat → Inst → List Entry
+  | 0, _ => []
+  | k + 1, i => (callStep i []).2.1 ++ entriesN k (callStep i []).1
+
+theorem runModel_entries (f : Nat) (i i' : Inst) (es : List Entry) (h : runModel f i = some (i', es)) :
+    ∃ k, i' = stepN k i ∧ es = entriesN k i ∧ i'.running = false ∧ ∀ j, j < k → (stepN j i).running = true := by
+  induction f generalizing i i' es with
+  | zero => simp [runModel] at h
+  | succ f ih =>
+    unfold runModel at h
+    split at h
+    · rename_i hr
+      simp at h
+      refine ⟨0, h.1.symm, h.2.symm ▸ rfl, ?_, fun j hj => absurd hj (Nat.not_lt_zero _)⟩
+      rw [← h.1]; simpa using hr
+    · rename_i hr
+      dsimp only at h
+      split at h
+      · simp at h
+      · rename_i i'' es' heq
+        simp at h
+        obtain ⟨k, h1, h1e, h2, h3⟩ := ih _ _ _ heq
+        refine ⟨k + 1, ?_, ?_, ?_, ?_⟩
+        · rw [← h.1, h1]; rfl
+        · rw [← h.2, h1e]; rfl
+        · rw [← h.1]; exact h2
+        · intro j hj
+          cases j with
+          | zero => simpa [stepN] using hr
+          | succ j => exact h3 j (by omega)
+
+theorem entriesN_steps (k : Nat) (i : Inst) : ∀ e ∈ entriesN k i, i.steps + 1 ≤ e.steps ∧ e.steps ≤ i.steps + k := by
+  induction k generalizing i with
+  | zero => simp [entriesN]
+  | succ k ih =>
+    intro e he
+    simp only [entriesN, List.mem_append] at he
+    rcases he with he | he
+    · have := runChain_steps i.hier 0 [] (i.steps + 1) e he
+      omega
+    · have := ih (callStep i []).1 e he
+      rw [callStep_steps] at this
+      omega
+
 end Mesa.Steps
